@@ -17,8 +17,8 @@ impl InstructionGenerator {
         // to be able to resume after an error at the last statement of CASE ELSE
         self.mark_statement_address();
         // need to pop value from stack because it was pushed by `generate_eval_select_case_expr`
-        self.push(Instruction::PopValueStackIntoA, pos);
         self.label(labels::end_select(), pos);
+        self.push(Instruction::PopValueStackIntoA, pos);
     }
 
     /// Evaluate SELECT CASE x into A
